@@ -112,6 +112,15 @@ def cases(tier):
         if spec['family'] == 'cf1d' and spec.get('bounds', 'none') == 'none' and min(spec['ny'], spec['nx']) < 2:
             continue
         out.append({'part': 'family', 'spec': spec})
+    # cells without geometry *before* concave cells (linear indexes shift if anything is compacted)
+    for holes in ('corner', 'first', 'lshape', 'interior'):
+        for family in ('cf2d', 'shoc_simple'):
+            out.append({'part': 'family', 'spec': {'family': family, 'ny': 3, 'nx': 3, 'geometry': 'skew', 'holes': holes,
+                                                   'darts': [[1, 2], [2, 1], [2, 2]]}})
+            out.append({'part': 'family', 'spec': {'family': family, 'ny': 2, 'nx': 4, 'geometry': 'rect', 'holes': holes,
+                                                   'darts': [[0, 3], [1, 1]]}})
+    out.append({'part': 'family', 'spec': {'family': 'ugrid', 'mesh': 'M8', 'bowtie': 1}})
+    out.append({'part': 'family', 'spec': {'family': 'ugrid', 'mesh': 'M8', 'bowtie': 1, 'start_index': 1, 'fill': 'fillattr'}})
     return out
 
 
@@ -135,6 +144,8 @@ def run_case(case):
         rec.nontrivial('holes')
     if case['part'] == 'family' and spec.get('mesh') in ('M4', 'M5', 'M8', 'M9'):
         rec.nontrivial('mesh')
+    if case['part'] == 'family' and spec.get('darts'):
+        rec.nontrivial('holes-before-concave')
 
     from emsarray.operations.triangulate import triangulate_dataset
     try:
